@@ -65,7 +65,9 @@ def job_continuity(nfr, T, Fc, asc, oi, select):
         if nfr >= 2:
             _decoys = [CAD.Cadence(frames[1:]), CAD.Cadence(frames[::-1]), cad[1:], cad[[nfr - 1]]]
         tgt.add_signal(**kw)
-        return frames, before, [id(f) for f in tgt.frames]
+        # derived axes read AFTER the injection follow the restored time axis (nothing computed on the shifted one sticks)
+        ext_after = [list(fr.ts_ext) for fr in frames]
+        return frames, before, [id(f) for f in tgt.frames], ext_after
     with cad_patches():
         leaves = core.explore(run, pre, cap=20)
     pl = dict(fn='cadence', nfr=nfr, T=T, Fc=Fc, asc=asc, opts=o, select=select, fault=None)
@@ -75,16 +77,17 @@ def job_continuity(nfr, T, Fc, asc, oi, select):
             recs.append(q(name, 'sat', detail=repr(leaf.value)))
             recs.append(cex('C16:raise', f'Cadence.add_signal raised {leaf.value!r}', pl, name=name))
             continue
-        frames, before, tgt_ids = leaf.value
+        frames, before, tgt_ids, ext_after = leaf.value
         members = [m for m, fr in enumerate(frames) if id(fr) in tgt_ids]
         first = [m for m, fr in enumerate(frames) if id(fr) == tgt_ids[0]][0] if tgt_ids else 0
         dis_sig, dis_ts = [], []
         for m, fr in enumerate(frames):
             ts0 = before[m][0]
-            if len(fr.ts) != len(ts0):
+            if len(fr.ts) != len(ts0) or len(ext_after[m]) != len(ts0) + 1:
                 dis_ts.append(z3.BoolVal(True))
             else:
                 dis_ts += [lift(a) != lift(b) for a, b in zip(fr.ts, ts0)]
+                dis_ts += [lift(a) != lift(b) for a, b in zip(ext_after[m], list(ts0) + [lift(ts0[-1]) + lift(fr.dt)])]
             if m in members:
                 shifted = [lift(t) + (taus[m].t - taus[first].t) for t in ts0]
                 spec = inject.spec_signal(c, inp, list(fr.fs), [Sym(t) for t in shifted], fr.df, fr.dt, fr.fmin)
@@ -382,6 +385,8 @@ def replay_cadence(p):
     for m, fr in enumerate(frames):
         if not np.array_equal(fr.ts, ts0[m]):
             msgs.append(f"frame {m}: ts changed by up to {np.max(np.abs(fr.ts - ts0[m]))}")
+        if len(fr.ts_ext) != len(ts0[m]) + 1 or not np.allclose(fr.ts_ext, np.append(ts0[m], ts0[m][-1] + fr.dt), rtol=0, atol=1e-9):
+            msgs.append(f"frame {m}: the extended time axis read after the injection starts at {fr.ts_ext[0]!r}, the frame's time axis at {ts0[m][0]!r}")
         ref = mk(m)
         ref.data = Ds[m].copy()
         if m in members:
